@@ -19,6 +19,9 @@ def recip(dur_q):
         r = F(4) / base  # reciprocal of a whole note
         if r.denominator == 1 and r >= 1:
             return str(r.numerator) + "." * dots
+        if r in (F(1, 2), F(1, 4)):
+            # breve and long: "0" and "00"
+            return ("0" if r == F(1, 2) else "00") + "." * dots
     return None
 
 
